@@ -9,11 +9,14 @@ import (
 func init() { register("C10", propC10) }
 
 func propC10(c *Ctx) {
-	c.Explanation = "Decides structural necessary conditions of port exclusivity for all schedules and inputs: (Q1) every access to PortManager.allocatedPorts happens with PortManager.mu held (must-lockset, interprocedural, closure passed to PickEphemeralPort included) and the availability check and the insertion lie in one critical section; (Q2) bindAddresses.isAvailable computes exactly the conflict relation of the property (decision table over its branch atoms, all assignments); (Q5) isPortAvailableLocked answers 'available' only after every network of the request was examined, and reserveSpecificPort inserts for every network only after that answer; (Q3) PickEphemeralPort tries offsets i in [0,count) of the range, returns ErrNoPortAvailable only after the loop is exhausted, propagates a tester error unchanged, and its port arithmetic neither wraps nor leaves [16000,65535] (interval analysis); (Q4) reservations made by TCP Bind and UDP registerWithStack/bindLocked are released on every later error exit with the same arguments, Close releases what the endpoint holds, and ReleasePort deletes only the (network,transport,port)/address entry it was given. Q5 also tables reserveSpecificPort: a fresh address set per descriptor, the address inserted for every network. NOT decided: that the map content over a history of calls is what the sequence implies (histories quantifier)."
+	c.Explanation = "Decides structural necessary conditions of port exclusivity for all schedules and inputs: (Q1) every access to PortManager.allocatedPorts happens with PortManager.mu held (must-lockset, interprocedural, closure passed to PickEphemeralPort included) and the availability check and the insertion lie in one critical section; (Q2) bindAddresses.isAvailable computes exactly the conflict relation of the property (decision table over its branch atoms, all assignments); (Q5) isPortAvailableLocked answers 'available' only after every network of the request was examined, and reserveSpecificPort inserts for every network only after that answer; (Q3) PickEphemeralPort tries offsets i in [0,count) of the range, returns ErrNoPortAvailable only after the loop is exhausted, propagates a tester error unchanged, and its port arithmetic neither wraps nor leaves [16000,65535] (interval analysis); (Q4) reservations made by TCP Bind and UDP registerWithStack/bindLocked are released on every later error exit with the same arguments, Close releases what the endpoint holds, and ReleasePort deletes only the (network,transport,port)/address entry it was given. Q5 also tables reserveSpecificPort: a fresh address set per descriptor, the address inserted for every network. (Q7) every stack has its own fresh port manager; (Q8) a specific port is reserved exactly when it is available for every requested network. (Q9) port arithmetic narrows only where the value is below the range size. NOT decided: that the map content over a history of calls is what the sequence implies (histories quantifier)."
 	c.Assumptions = []string{"math/rand.Int31n(n) returns a value in [0,n)", "closures passed to PickEphemeralPort are invoked synchronously by it (checked: it calls its parameter and never stores it)"}
 	pm := "(*ports.PortManager)."
 
 	// Q1 lockset
+	stackCtorRule(c, c.Rule("Q7", "K7 exact-guard site table (shared with C12/T8)", "every stack has its own fresh port manager", 3))
+	portReserveReturnsRule(c, c.Rule("Q8", "K7 closed return table", "a specific port is reserved exactly when it is available for every requested network", 2))
+	c.NoNewNarrowing(c.Rule("Q9", "K8 narrowing (closed world, reviewed table)", "port arithmetic narrows only where the value is below the range size", 4), []string{"/protocol/ports"}, narrowPorts)
 	q1 := c.Rule("Q1", "K4 lockset", "allocatedPorts only under PortManager.mu", 6)
 	la := c.Locks()
 	la.CheckGuards(c, q1, guardsPorts, nil)
